@@ -356,3 +356,5 @@ ENTRIES["C17"]["text"] += (" Props/Tie.frame_is_source' ([G]): Frame::frame and 
     "order with their own errors and the triple they name, the two bases, their product, the translation), are the model's frameOf / distancesMatch (rfl).")
 ENTRIES["C15"]["text"] += (" Props/Tie.jacobian_is_source ([G]): the column closure of compute_jacobian and the wrench of Jacobian::torques, translated from the CURRENT "
     "source on every run, are the model's jacobianColumn / wrenchOfIso (rfl).")
+ENTRIES["C18"]["text"] += (" TieCons.randomAngle_is_source ([G]): the per-joint sampler nested in random_angles, translated from the CURRENT source with the generator's draw as "
+    "a parameter, is the model's randomAngle; the six calls pair from[i] with to[i] (translator check).")
